@@ -96,14 +96,28 @@ def quiescence_findings(ck, lines):
             ck.divergences.append({"key": key, "detail": what, "case": [json.dumps(e) for e in sc][:120]})
 
 
-def model_check(ck, nexp_violation=True):
-    a = vlib.tlc("Subscriber", ("sub.cfg", vlib.cfg_text(dict(Pubs='{"a","b"}', MaxAd=3, SemMax=1, NExp=0), ["LatestOK", "OnceOK", "SemOK", "MutexOK"], view="view")),
+def model_check(ck, nexp_violation=True, thorough=False):
+    inv = ["LatestOK", "OnceOK", "SemOK", "MutexOK", "OneSyncOK", "OrphanOK", "UsersOK"]
+    a = vlib.tlc("Subscriber", ("sub.cfg", vlib.cfg_text(dict(Pubs='{"a","b"}', MaxAd=3, SemMax=1, NExp=0, IDLE='"off"', MaxGen=1), inv, view="view")),
                  timeout=1800, tag="submc")
-    ck.add_tlc("Subscriber/announce-only", a, "2 publishers x 3 ads, semaphore 1: quiescence (latest = last announced, every ad once), semaphore bound, mutexes")
-    b = vlib.tlc("Subscriber", ("sub1.cfg", vlib.cfg_text(dict(Pubs='{"a","b","c"}', MaxAd=2, SemMax=2, NExp=0), ["LatestOK", "OnceOK", "SemOK", "MutexOK"], view="view")),
+    ck.add_tlc("Subscriber/announce-only", a, "2 publishers x 3 ads, semaphore 1: quiescence (latest = last announced, every ad once), semaphore bound, mutexes, one sync at a time")
+    b = vlib.tlc("Subscriber", ("sub1.cfg", vlib.cfg_text(dict(Pubs='{"a","b","c"}', MaxAd=2, SemMax=2, NExp=0, IDLE='"off"', MaxGen=1), inv, view="view")),
                  timeout=1800, tag="submc2")
     ck.add_tlc("Subscriber/3-publishers", b, "3 publishers x 2 ads, semaphore 2")
-    e = vlib.tlc("Subscriber", ("sube.cfg", vlib.cfg_text(dict(Pubs='{"a"}', MaxAd=3, SemMax=1, NExp=1), ["OnceOK"], view="view")), timeout=900, tag="submce")
+    # the idle handler cleaner: it may remove any handler nobody uses, at any point
+    c = vlib.tlc("Subscriber", ("subi.cfg", vlib.cfg_text(dict(Pubs='{"a","b"}', MaxAd=3, SemMax=1, NExp=0, IDLE='"fixed"', MaxGen=3 if thorough else 2), inv, view="view")),
+                 timeout=3000, tag="submci")
+    ck.add_tlc("Subscriber/idle-cleaner", c, "announce-only with the idle handler cleaner removing unused handlers at any point (up to MaxGen handlers per publisher): every invariant, "
+               "the use count equals the users there are (UsersOK), a removed handler is used by nobody (OrphanOK)")
+    d = vlib.tlc("Subscriber", ("subix.cfg", vlib.cfg_text(dict(Pubs='{"a"}', MaxAd=3 if thorough else 2, SemMax=0, NExp=2, IDLE='"fixed"', MaxGen=2), ["SemOK", "MutexOK", "OneSyncOK", "OrphanOK", "UsersOK"], view="view")),
+                 timeout=3000, tag="submcix")
+    ck.add_tlc("Subscriber/idle-cleaner+explicit", d, "explicit syncs of the announced publisher with the cleaner: one sync at a time, use counts")
+    e = vlib.tlc("Subscriber", ("sube.cfg", vlib.cfg_text(dict(Pubs='{"a"}', MaxAd=3, SemMax=1, NExp=1, IDLE='"off"', MaxGen=1), ["OnceOK"], view="view")), timeout=900, tag="submce")
     ck.cov["tlc_runs"].append({"name": "one explicit sync mixed in must violate OnceOK (findings F-C08-2/3 on the model)", "violated": e.violated})
-    for r in (a, b, e):
+    # the pinned cleaner (expiry set at lookup: a handler in use may be removed) must be refuted
+    f = vlib.tlc("Subscriber", ("subp.cfg", vlib.cfg_text(dict(Pubs='{"a"}', MaxAd=2, SemMax=0, NExp=0, IDLE='"pinned"', MaxGen=2), ["OneSyncOK"], view="view")), timeout=900, tag="submcp")
+    ck.cov["tlc_runs"].append({"name": "IDLE = pinned (a handler in use may be removed) must violate OneSyncOK: two syncs of one publisher at a time", "violated": f.violated})
+    if f.violated != "OneSyncOK":
+        raise vlib.Infra("Subscriber.tla: the pinned idle cleaner was not refuted (%s)" % f.violated)
+    for r in (a, b, c, d, e, f):
         shutil.rmtree(r.workdir, ignore_errors=True)
